@@ -173,13 +173,17 @@ theorem specOK_scalarClosed (ty : ElemTy) (hroot : ∀ p, Nat.Prime p → (primi
     ScalarClosed (SpecOK ty) where
   dft := fun n _ => specOK_dft n
   bfly := fun b _ => specOK_bfly b
-  gtSmall := specOK_gtSmall
-  mrSmall := specOK_mrSmall
-  mixedRadix := specOK_mixedRadix
-  raders := specOK_raders hroot
-  bluesteins := specOK_bluesteins
-  radixN := specOK_radixN
-  radix4 := specOK_radix4
+  gtSmallBfly := fun l r hl hr hg => specOK_gtSmall _ _ (specOK_bfly l) (specOK_bfly r)
+    (productButterflies_lt l hl) (productButterflies_lt r hr) hg
+  mrSmallBfly := fun l r hl hr => specOK_mrSmall _ _ (specOK_bfly l) (specOK_bfly r)
+    (productButterflies_lt l hl) (productButterflies_lt r hr)
+  gtSmall := fun a b ha hb _ _ ha31 hb31 hg _ => specOK_gtSmall a b ha hb (by omega) (by omega) hg
+  mrSmall := fun a b ha hb _ _ ha31 hb31 _ => specOK_mrSmall a b ha hb (by omega) (by omega)
+  mixedRadix := fun a b ha hb _ _ h33 _ => specOK_mixedRadix a b ha hb h33
+  raders := fun i hi hp h33 _ => specOK_raders hroot i hi hp h33
+  bluesteins := fun n i hi _ h33 hb _ _ _ => specOK_bluesteins n i hi h33 hb
+  radixN := fun fs b hb _ _ _ hpos => specOK_radixN fs b hb hpos
+  radix4 := fun k b hb _ _ => specOK_radix4 k b hb
 
 theorem specOK_sseClosed (ty : ElemTy) (hroot : ∀ p, Nat.Prime p → (primitiveRoot p).isSome = true) :
     SseClosed (SpecOK ty) where
@@ -194,9 +198,9 @@ theorem specOK_sseClosed (ty : ElemTy) (hroot : ∀ p, Nat.Prime p → (primitiv
       · cases h
   gtSmall := specOK_gtSmall
   mrSmall := specOK_mrSmall
-  mixedRadix := specOK_mixedRadix
-  raders := specOK_raders hroot
-  bluesteins := specOK_bluesteins
+  mixedRadix := fun a b ha hb _ _ h33 => specOK_mixedRadix a b ha hb h33
+  raders := fun i hi hp h33 _ => specOK_raders hroot i hi hp h33
+  bluesteins := fun n i hi _ h33 hb _ _ => specOK_bluesteins n i hi h33 hb
   sseRadix4 := specOK_sseRadix4
 
 end RFV
